@@ -203,6 +203,23 @@ def run(d):
             exact, det = native_product_check(kind, rp["lb"], rp["ub"], rp["x"], rp["c"])
             print("REPLAY product exact=%s %s" % (exact, json.dumps(det, default=str)))
             return 0 if exact else 1
+    if d.get("kind") == "bounded":
+        # a failing case of a bounded stand-in: run the stored case through the same harness again, natively, on the current tree
+        import importlib
+        pid, case = d.get("property"), (rp or {}).get("case")
+        modname = ("symmilp.s_%s" if "symmilp" in str(d.get("harness")) else "rc.p_%s") % pid
+        try:
+            mod = importlib.import_module(modname)
+            r = mod.check(case) if case is not None and hasattr(mod, "check") else None
+        except Exception as e:      # noqa
+            print("REPLAY: could not re-run the stored case (%s: %s)" % (type(e).__name__, e))
+            return 0
+        if r is not None:
+            print("REPLAY %s.check(case): ok=%s fingerprint=%s | %s" % (modname, r.get("ok"), r.get("fingerprint"), str(r.get("what"))[:600]))
+            return 1 if r.get("ok") is False else 0
+    if d.get("kind") == "pyvc-obligation" and rp and "ok" in rp:
+        print("REPLAY (recorded when the obligation failed): natively confirmed=%s | %s" % (rp.get("ok"), json.dumps({k: v for k, v in rp.items() if k != "values"}, default=str)[:800]))
+        return 1 if rp.get("ok") else 0
     print("REPLAY: no native replay recorded for this file (obligation-level evidence only)")
     return 0
 
